@@ -35,23 +35,25 @@ fn replay_case(prop: &str, case: &Value) -> Vec<Violation> {
     }
 }
 
-const PLAIN_BIN: &str = "/verif/target/mc/plain/mc";
+fn plain_bin() -> String {
+    format!("{}/target/mc/plain/mc", report::verif_dir())
+}
 
 /// C01's second observation point: the same exploration on a plain `--release` build of harness
 /// and subject (no overflow checks, no debug assertions), run as a child process.
 fn plain_release_pass(r: &Report, tier: &str) {
-    if !std::path::Path::new(PLAIN_BIN).exists() {
-        r.machinery_failure(format!("{PLAIN_BIN} not built (the driver builds it for C01)"));
+    if !std::path::Path::new(&plain_bin()).exists() {
+        r.machinery_failure(format!("{} not built (the driver builds it for C01)", plain_bin()));
         return;
     }
-    let out = std::process::Command::new(PLAIN_BIN)
+    let out = std::process::Command::new(plain_bin())
         .args(["C01", tier])
         .env("MC_CHILD", "1")
         .output();
     let out = match out {
         Ok(o) => o,
         Err(e) => {
-            r.machinery_failure(format!("cannot run {PLAIN_BIN}: {e}"));
+            r.machinery_failure(format!("cannot run {}: {e}", plain_bin()));
             return;
         }
     };
@@ -149,8 +151,8 @@ pub fn child_pass(r: &Report, prop: &str, tz: &str) {
 /// replay of a counterexample found by a child pass: run a child under the same zone
 fn replay_child_tz(prop: &str, case: &Value) -> Vec<Violation> {
     let tz = case["tz"].as_str().unwrap_or("UTC").to_string();
-    let dir = "/verif/target/tmp";
-    let _ = std::fs::create_dir_all(dir);
+    let dir = format!("{}/target/tmp", report::verif_dir());
+    let _ = std::fs::create_dir_all(&dir);
     let path = format!("{dir}/child-replay-{}.json", std::process::id());
     let mut c = case.clone();
     c["engine"] = c["child_engine"].clone();
@@ -184,8 +186,8 @@ fn replay_child_tz(prop: &str, case: &Value) -> Vec<Violation> {
 
 /// replay of a plain-release counterexample: run the plain binary on it
 fn replay_plain(prop: &str, case: &Value) -> Vec<Violation> {
-    let dir = "/verif/target/tmp";
-    let _ = std::fs::create_dir_all(dir);
+    let dir = format!("{}/target/tmp", report::verif_dir());
+    let _ = std::fs::create_dir_all(&dir);
     let path = format!("{dir}/plain-replay-{}.json", std::process::id());
     let mut c = case.clone();
     c["engine"] = Value::String("doc".into());
@@ -193,7 +195,7 @@ fn replay_plain(prop: &str, case: &Value) -> Vec<Violation> {
     if std::fs::write(&path, body.to_string()).is_err() {
         return vec![];
     }
-    let out = std::process::Command::new(PLAIN_BIN)
+    let out = std::process::Command::new(plain_bin())
         .args(["replay", &path])
         .env("MC_CHILD", "1")
         .output();
